@@ -165,6 +165,54 @@ def run_case(case: dict) -> dict:
                                    "msg": f"{label}: {after - before} native thread(s) still alive 3 s after the "
                                           f"iterator was dropped ({before} -> {after})"})
             sigs.append([comp, layout, len(paths), T, gated, position if total <= 8 else "sampled"])
+        # ---- two Python threads, each with its own Rust reader: A waits on slow (gated) shards of the dataset
+        #      while B keeps creating / iterating / dropping readers over an ungated copy
+        import shutil
+        import threading
+        root_b = work / "ds_b"
+        shutil.copytree(root, root_b)
+        outputs: dict = {}
+        stop = threading.Event()
+
+        def reader_a() -> None:
+            try:
+                outputs["A"] = [canonical(e) for e in readers.read(Dataset(root), "rust", "train", shuffle=0,
+                                                                  repeat=False, file_parallelism=2)]
+            except BaseException as exc:  # pylint: disable=broad-exception-caught
+                outputs["A"] = f"{type(exc).__name__}: {str(exc)[:160]}"
+            finally:
+                stop.set()
+
+        def reader_b() -> None:
+            passes = 0
+            try:
+                dataset_b = Dataset(root_b)
+                while not stop.is_set() and passes < 50:
+                    got = [canonical(e) for e in readers.read(dataset_b, "rust", "train", shuffle=0, repeat=False,
+                                                              file_parallelism=1 + passes % 3)]
+                    passes += 1
+                    if got != python_seq:
+                        outputs["B"] = f"pass {passes}: {len(got)} examples, differs from the Python sequence"
+                        return
+                outputs["B"] = passes
+            except BaseException as exc:  # pylint: disable=broad-exception-caught
+                outputs["B"] = f"{type(exc).__name__}: {str(exc)[:160]}"
+
+        with Gate(paths, work, policy="inorder", seed=case["pseed"], expect=1, rounds=1, settle=0.06):
+            threads = [threading.Thread(target=reader_a), threading.Thread(target=reader_b)]
+            for thread in threads:
+                thread.start()
+            for thread in threads:
+                thread.join()      # a deadlock here is diagnosed by the orchestrator's quiescence oracle
+        obs["concurrent_thread_pairs"] += 1
+        obs["passes_by_the_second_thread"] += outputs["B"] if isinstance(outputs.get("B"), int) else 0
+        if outputs.get("A") != python_seq:
+            violations.append({"key": "rust-readers-in-two-threads-interfere",
+                               "msg": f"fb/{comp or 'none'} shards={len(paths)}: gated thread got "
+                                      f"{outputs.get('A') if isinstance(outputs.get('A'), str) else len(outputs.get('A', []))}"})
+        if not isinstance(outputs.get("B"), int):
+            violations.append({"key": "rust-readers-in-two-threads-interfere",
+                               "msg": f"fb/{comp or 'none'} shards={len(paths)}: second thread: {outputs.get('B')}"})
         obs["native_harness_tests"] = 0
         return {"sigs": sigs, "sig": None, "nontrivial": bool(sigs), "violations": violations, "obs": dict(obs),
                 "sample": {"comp": comp, "layout": layout, "shards": len(paths), "examples": total}}
